@@ -229,5 +229,20 @@ package broker
 //@   modifies nclose, tstarted, held
 //@   at call 1 NewClient assert [timeout-armed] held[e.mutex] == 2
 //@ func NewEngine(backend Backend) (e *Engine)
-//@   ensures e != nil && fresh(e) && e.Backend == backend && held[e.mutex] == 0
+//@   ensures e != nil && fresh(e) && e.Backend == backend && held[e.mutex] == 0 && e.accepting == 0
 //@   modifies nothing
+//
+// Object invariant of an Engine (established by Accept, the only writer of
+// Engine.accepting): accepting ==> an acceptor goroutine has been started on
+// the tomb; Close waits for the tomb only then, so Close returns.
+//@ writers Engine.accepting: (*Engine).Accept
+//@ spec pred engine_inv(e *Engine) = e.accepting != 0 ==> tstarted[e.tomb] > 0
+//@ func (e *Engine) Accept(server transport.Server)
+//@   ensures [invariant] e.accepting == 1 && tstarted[e.tomb] > 0
+//@   modifies e.accepting, tstarted[e.tomb]
+//@ func (e *Engine) Close()
+//@   requires [unlocked] held[e.mutex] == 0
+//@   requires [invariant] engine_inv(e)
+//@   ensures [released] held == old(held)
+//@   ensures [dying] tdying[e.tomb]
+//@   modifies held, tdying[e.tomb]
